@@ -15,6 +15,8 @@ import OFV.Proofs.C09Bk3
 import OFV.Proofs.C09IntMul
 import OFV.Proofs.C09Addr
 import OFV.Proofs.C09Ext4
+import OFV.Proofs.C09Seq
+import OFV.Proofs.C09Bct4
 
 namespace OFV.C09
 open OFV.Model.C09 OFV.Spec.C09
@@ -74,6 +76,17 @@ theorem string_constructor_sound (w : Nat → Bool) (sm : List (List Tok)) (p : 
     (h : ofString sm = .ok p) (hne : ∀ toks ∈ sm, toks ≠ []) :
     evalPoly w p = sm.foldr (fun toks a => xor (summandVal w toks) a) false :=
   ofString_sound' w sm p h hne
+
+/-- `BinaryPolynomial([tuple, …])` (no negative factor; `'one'` factors count as 1, repeated
+factors and repeated summands are handled by `_check_factor` / `binary_sum_rule`): when it
+returns, the polynomial is the XOR over the non-empty summands of the product of their integer
+factors.  (`gsum g l` is the XOR of `g` over `l`.) -/
+theorem tuple_constructor_sound (w : Nat → Bool) (terms : List Mono) (p : Poly)
+    (h : ofSeq false terms = .ok p) :
+    evalPoly w p = gsum (fun t => !t.isEmpty && evalMono w t) terms := ofSeq_sound' w terms p h
+
+example : ofSeq false [[some 2, none, some 1, some 2], [none], [some 7], [some 7], []] = .ok [[some 1, some 2], [none]] := by
+  rfl
 
 example : ofString [[.var 1, .const 1, .var 2], [.const 3], [.var 1, .const 0]] = .ok [[some 1, some 2], [none]] := by
   rfl
@@ -310,6 +323,43 @@ theorem extractor_sound_spec (p : Poly) (hp : ∀ t ∈ p, t ≠ []) (o : Model.
   split
   · exact h1
   · rfl
+
+/-! ## binary_code_transform (tolerance-free Model)
+
+`Sem.den .qubit R [m] [x]` is the Spec matrix element `⟨x| R |m⟩` (OFV.Proofs.C04Sem).  `BctHyp`
+says that at the qubit state `wq` the decoder returns the occupations of the Fock state `s` and
+the parity list the parities of `s`, without empty monomials; `bct_hypotheses_from_validity`
+derives it from `decode(encode v) = v`.  The proof is an induction over the reversed term
+(occupation projectors via `extractor_sound`, parity bookkeeping, update operator). -/
+
+/-- **binary_code_transform_sound, one term** (every length, every product of ladder operators):
+`⟨x| coef · update · transformed |wq⟩` vanishes when the Spec action `t|s⟩` vanishes, and otherwise
+is `coef · (-1)^k` at the single state `x = wq ⊕ M`, where `t|s⟩ = (-1)^k|s'⟩` in the Spec and `M`
+is the qubit mask of `A · (number of times each mode is flipped) mod 2` — by linearity of the
+encoder the encoding of `s'`. -/
+theorem binary_code_transform_term_sound (c : Code) (plist : List Poly) (wq s : Nat)
+    (hyp : BctHyp c plist (bitsOf wq) s) (t : Model.Term) (ht : ∀ f ∈ t, f.2 ≤ 1) (coef : GQ) (R : Model.Op)
+    (h : bctTerm 0 c plist t coef = .ok R) (x : Nat) :
+    Sem.den .qubit R [wq] [x] =
+      match Spec.actFTerm t s with
+      | none => 0
+      | some (k, _) =>
+        if x = wq ^^^ updMask (encode c ((t.reverse.map (·.1)).foldl addAt (zeros c.nm))) then coef * GQ.sgn k
+        else 0 :=
+  bct_term_sound' c plist wq s hyp t ht coef R h x
+
+/-- the hypotheses of the term theorem hold at the encoded state of every vector on which the
+code is valid, with the parity list `make_parity_list(code)` the transform uses -/
+theorem bct_hypotheses_from_validity (c : Code) (v : List Nat) (wq s : Nat) (hsh : c.dec.length = c.nm)
+    (hpoly : ∀ e ∈ c.dec, ∃ p, e = .poly p) (hne : ∀ e ∈ c.dec, ∀ t ∈ e.toPoly, t ≠ [])
+    (hval : ValidOn c v) (hw : bitsOf wq = encFn c v) (hs : ∀ j, s.testBit j = (v.getD j 0 == 1)) :
+    BctHyp c (makeParityList c) (bitsOf wq) s :=
+  bctHyp_of_valid c v wq s hsh hpoly hne hval hw hs
+
+/-- the update operator `Π X_q` over the odd entries of `A · changed mod 2` flips exactly those qubits -/
+theorem update_operator_sound (cq : List Nat) (m x : Nat) :
+    Sem.den .qubit (updateOp cq) [m] [x] = if x = m ^^^ updMask cq then 1 else 0 :=
+  (flipOp_update cq).2 m x
 
 /-! ## the literal segment codes (tables re-extracted from the source on every run) -/
 
